@@ -13,6 +13,9 @@
    the implementation's [_parent]/[_children]/[_tree] after every step. *)
 From Coq Require Import List ZArith Bool Arith Permutation.
 From NT Require Import Sx Rose Surgery Machine WF PreserveSteps PreserveOps PreserveSort PreserveCopy PreserveMore PreserveRelabel PreserveKeepClones Invariant CaseMut CaseWF.
+From NT Require MiscMapper MiscRepr MiscRemoved MiscRemovedProofs.   (* part REMOVED, imported at the end of this file *)
+From NT Require MiscSelfCheck MiscSelfCheckProofs.   (* part SELFCHECK, imported at the end of this file *)
+From NTGen Require Generated.
 Import ListNotations.
 
 (* ---- the checker used by the correspondence decides WF ---- *)
@@ -483,3 +486,100 @@ Example C01_removed_unreachable_nonvacuous :
   c01_pre (snd (step c01_rw (ORemove 0 1 true true))) = [2; 3; 4; 6] /\
   c01_pre (snd (step c01_rw (OFilter 0 0 [(1, VSkipKeep)]))) = [1; 4; 5; 6].
 Proof. vm_compute. repeat split. Qed.
+
+(* ==== PART REMOVED: a removed node is inert (model theories/Forest/MiscRemoved.v, correspondence Cases/CaseMiscRemoved.v,
+   harness parts_misc.REMOVED).  [slots] are the raw attributes of a node object, [sheap] gives them for every object;
+   [clear_slots tag clear s] is what Tree._unregister assigns; [eval h fuel n a] is accessor [a] of node.py evaluated on
+   the object n, written on the slots as the Python method is (AttributeError on None, TypeError on None[...]);
+   [cleared tag s] = every slot _unregister(clear=True) assigns has the assigned value.  `_kind` is not cleared. ==== *)
+Import MiscMapper MiscRepr MiscRemoved MiscRemovedProofs.
+
+(* what _unregister leaves behind (clear=True is the only form the library uses, see C01_removed_source_facts) *)
+Theorem C01_removed_slots : forall tag b s,
+  cleared tag (clear_slots tag true s) /\
+  s_parent (clear_slots tag b s) = None /\ s_tree (clear_slots tag b s) = None /\ s_kind (clear_slots tag b s) = s_kind s.
+Proof. intros tag b s. exact (conj (clear_slots_cleared tag s) (clear_slots_pointers tag b s)). Qed.
+Print Assumptions C01_removed_slots.
+
+(* the accessor table: EVERY accessor of a removed node answers exactly this – whatever the rest of the heap looks like,
+   for every fuel: name/data = the tag, ids/meta/tree None, children [], is_system_root/is_leaf True, counts 0, path "/",
+   parent/is_top/siblings/index/clones/get_top raise AttributeError, up() ValueError, relations False, ancestor None *)
+Theorem C01_removed_accessor_table : forall h fuel tag n a,
+  cleared tag (h n) -> eval h fuel n a = removed_table tag n (s_kind (h n)) a.
+Proof. exact removed_answers. Qed.
+Print Assumptions C01_removed_accessor_table.
+
+(* inert: no accessor of a removed node hands out any node other than (iterator(add_self=True)) the removed node itself,
+   hence never a node that is still in a tree *)
+Theorem C01_removed_inert : forall h fuel tag n a m, cleared tag (h n) -> In m (nodes_of (eval h fuel n a)) -> m = n.
+Proof. exact removed_inert. Qed.
+Print Assumptions C01_removed_inert.
+
+Theorem C01_removed_returns_no_live_node : forall h fuel tag (live : nat -> Prop) n a,
+  cleared tag (h n) -> ~ live n -> forall m, In m (nodes_of (eval h fuel n a)) -> ~ live m.
+Proof. exact removed_returns_no_live_node. Qed.
+Print Assumptions C01_removed_returns_no_live_node.
+
+(* and no other object's relation query walks into it: a removed node is on nobody's parent chain *)
+Theorem C01_removed_on_no_chain : forall h fuel tag n o, cleared tag (h n) ->
+  eval h fuel o (AIsDescendantOf n) = QBool false /\ eval h fuel n (AIsAncestorOf o) = QBool false.
+Proof. exact removed_on_no_chain. Qed.
+Print Assumptions C01_removed_on_no_chain.
+
+(* the pointer part of the clearing is what the heap refinement's h_unregister does (Mut/Heap.v), for one node and for
+   the node sequences remove_children / remove / clear unregister; cleared pointers stay cleared *)
+Theorem C01_removed_agrees_with_heap : forall hs m tag b s,
+  heap_view (Heap.h_unregister hs m) m = (None, false, []) /\
+  ptr_view (clear_slots tag true s) = heap_view (Heap.h_unregister hs m) m /\
+  fst (ptr_view (clear_slots tag b s)) = fst (heap_view (Heap.h_unregister hs m) m).
+Proof. exact heap_unregister_agrees. Qed.
+Print Assumptions C01_removed_agrees_with_heap.
+
+Theorem C01_removed_all_cleared : forall l hs m, In m l -> ptr_cleared (fold_left Heap.h_unregister l hs) m.
+Proof. exact heap_unregister_all. Qed.
+Print Assumptions C01_removed_all_cleared.
+
+Theorem C01_removed_stays_cleared : forall l hs m, ptr_cleared hs m -> ptr_cleared (fold_left Heap.h_unregister l hs) m.
+Proof. exact fold_keeps_cleared. Qed.
+Print Assumptions C01_removed_stays_cleared.
+
+(* tie to the source (gen_facts section MISC): the tag, the default of `clear`, that no call site passes `clear`, and
+   the attribute assignments of Tree._unregister are those of the model *)
+Theorem C01_removed_source_facts :
+  Generated.GEN_MISC_OK = true /\ Generated.UNREGISTER_CLEAR_DEFAULT = true /\ Generated.UNREGISTER_CALLS_PASSING_CLEAR = 0%Z /\
+  Generated.UNREGISTER_ALWAYS = model_always /\ Generated.UNREGISTER_IF_CLEAR = model_if_clear /\ Generated.DELETED_TAG = ex_tag.
+Proof. repeat split. Qed.
+Print Assumptions C01_removed_source_facts.
+
+(* non-vacuity: node 2 (typed, with meta and a child) removed below the live node 1 *)
+Example C01_removed_ex :
+  cleared ex_tag (ex_heap 2) /\
+  map (eval ex_heap 5 2) [AName; AParent; AChildren; AIsSystemRoot; AKind; AIterator true; AGetMeta [107%Z]; AUp 1%Z; APath; AIsAncestorOf 1; ACommonAncestor 3] =
+  [QText ex_tag; QErr E_ATTR; QNodes []; QBool true; QText [107%Z]; QNodes [2]; QNone; QErr E_VALUE; QText [47%Z]; QBool false; QNone] /\
+  map (eval ex_heap 5 1) [AParent; AIsSystemRoot; AIsTop; ADepth; AGetTop; APath; AUp 1%Z; AUp 2%Z] =
+  [QNone; QBool false; QBool true; QInt 1%Z; QNode 1; QText [47; 97]%Z; QNode 0; QErr E_VALUE].
+Proof. exact ex_removed. Qed.
+
+(* ==== PART SELFCHECK: the library's own sanity check Tree._self_check, written on the pointer-level state of Mut/Heap.v
+   (model theories/Mut/MiscSelfCheck.v, correspondence Cases/CaseMiscSelfCheck.v on observed – healthy and hand-corrupted –
+   trees, harness parts_misc.SELFCHECK).  [h_self_check h = true] = the method returns True.  Not expressible on [hstate]
+   and therefore outside: `node._node_id == id(node)` and `_children is None or len(_children) > 0`. ==== *)
+Import MiscSelfCheck MiscSelfCheckProofs.
+
+(* the invariant implies the library's own check: on every heap that represents a well-formed tree state it returns True *)
+Theorem C01_self_check_passes : forall h t, WF t -> Rep h t -> h_self_check h = true.
+Proof. exact self_check_passes. Qed.
+Print Assumptions C01_self_check_passes.
+
+(* hence after EVERY history of operations (every exit: success, refusal, failing callback), in every tree of the world *)
+Theorem C01_self_check_reachable : forall ops, Forall (fun h => h_self_check h = true) (htrees (h_run ops h_empty_world)).
+Proof. exact self_check_reachable. Qed.
+Print Assumptions C01_self_check_reachable.
+
+(* non-vacuity, and the check is not vacuous: a fresh tree with one node passes; with the registry entry dropped it fails *)
+Example C01_self_check_ex :
+  h_self_check (HS (fun n => if Nat.eqb n 1 then Some 0 else None) (fun n => if Nat.eqb n 0 then [1] else []) (fun _ => true)
+                   (fun _ => dummy_i) [1] [1] [(DInt 0, [1])] false None false) = true /\
+  h_self_check (HS (fun n => if Nat.eqb n 1 then Some 0 else None) (fun n => if Nat.eqb n 0 then [1] else []) (fun _ => true)
+                   (fun _ => dummy_i) [1] [] [(DInt 0, [1])] false None false) = false.
+Proof. vm_compute. split; reflexivity. Qed.
